@@ -2,8 +2,8 @@
 
 Standard pipeline (vlib.standard_check) on the dev-profile harness, preceded by a *release
 probe*: the same harness crate built with `--release` (no integer overflow checks) runs the
-semiring cases again, compared with the release-profile model (`CSrRel`, wrapping `a + b` in
-Cost::mul).  Probe verdicts use the same logic: bit 1 => known finding or VIOLATION."""
+semiring cases again, compared with the model (`CSrRel`; since /repo eb5e08fe819 Cost::mul panics on overflow in
+every profile, so the semantics equal the dev profile's).  Probe verdicts use the same logic: bit 1 => known finding or VIOLATION."""
 import json
 import os
 
@@ -39,7 +39,7 @@ class C09(vlib.Spec):
                     "hook commit checks/hook_commits/C09_semiring_accessors.txt (raw accessors, cfg(hydro_verif))"]
     assumptions = ["model validated against the lattices crate only on the generated cases",
                    "operations are total tables over {0..n-1}, n <= 5; items lists of length <= 7 (harness dispatches &[S; N] for N <= 7)",
-                   "dev-profile harness: `a + b` in Cost::mul panics on u32 overflow; the release probe runs the same crate built with --release, where it wraps (recorded finding)",
+                   "semiring cases also run on the same crate built with --release (release probe); Cost::mul panics on u32 overflow in both profiles since /repo eb5e08fe819",
                    "-0.0 and NaN are not generated as semiring values (f64::max/min unspecified on signed zeros)"]
     rule = ("operation tables over carriers {0..n-1}: exhaustive for n=2 (and n=3 for the single-operation checkers in "
             "the thorough tier), library structures (Z_n, max/min, projections, xor/and/or, GF(4)) with isomorphic "
